@@ -13,6 +13,12 @@ import (
 // (without the file name token). A batch that makes fq panic or lose a line is re-run file by file;
 // a single file that still fails yields "panic" / "noline".
 func decodeBatch(format string, files map[string][]byte) map[string]string {
+	return decodeBatchProg(format, projections[format], files)
+}
+
+// decodeBatchProg: like decodeBatch with an explicit jq program (nested containers: the projection of an inner
+// format applied below a path of the outer tree).
+func decodeBatchProg(format, prog string, files map[string][]byte) map[string]string {
 	res := map[string]string{}
 	names := make([]string, 0, len(files))
 	for n := range files {
@@ -23,12 +29,12 @@ func decodeBatch(format string, files map[string][]byte) map[string]string {
 	for i := 0; i < len(names); i += chunk {
 		j := min(i+chunk, len(names))
 		part := names[i:j]
-		if !runPart(format, files, part, res) {
+		if !runPart(format, prog, files, part, res) {
 			for _, n := range part {
 				if _, ok := res[n]; ok {
 					continue
 				}
-				if !runPart(format, files, []string{n}, res) {
+				if !runPart(format, prog, files, []string{n}, res) {
 					if _, ok := res[n]; !ok {
 						res[n] = "panic"
 					}
@@ -39,12 +45,12 @@ func decodeBatch(format string, files map[string][]byte) map[string]string {
 	return res
 }
 
-func runPart(format string, files map[string][]byte, names []string, res map[string]string) bool {
+func runPart(format, prog string, files map[string][]byte, names []string, res map[string]string) bool {
 	fsys := memFS{}
 	for _, n := range names {
 		fsys[n] = files[n]
 	}
-	args := append([]string{"-r", "-d", format, projections[format]}, names...)
+	args := append([]string{"-r", "-d", format, prog}, names...)
 	so, se, err := runFq(fsys, args...)
 	ok := err == nil || !strings.HasPrefix(fmt.Sprint(err), "panic")
 	got := 0
